@@ -29,12 +29,15 @@ def occa_bin(ctx):
         stamp = os.path.join(BUILD_DIR, 'repo_path')
         if os.path.exists(stamp) and open(stamp).read() != C.REPO:
             subprocess.call(['rm', '-rf', b])
-        if not os.path.exists(os.path.join(b, 'build.ninja')):
-            rc, o, e, s, _ = C.sh(['cmake', '-S', C.REPO, '-B', b, '-G', 'Ninja', '-DCMAKE_BUILD_TYPE=Release', '-DCMAKE_CXX_FLAGS=-O1 -DLIBOCCA_OCCA_VERIF',
-                                   '-DCMAKE_CXX_FLAGS_RELEASE=', '-DOCCA_ENABLE_TESTS=OFF', '-DOCCA_ENABLE_EXAMPLES=OFF', '-DOCCA_ENABLE_OPENMP=OFF'], timeout=600)
+        cargs = ['-DCMAKE_BUILD_TYPE=Release', '-DCMAKE_CXX_FLAGS=-O1 -DLIBOCCA_OCCA_VERIF', '-DCMAKE_CXX_FLAGS_RELEASE=', '-DOCCA_ENABLE_TESTS=OFF', '-DOCCA_ENABLE_EXAMPLES=OFF',
+                 '-DOCCA_ENABLE_OPENMP=ON']       # OpenMP on: C06 needs a real OpenMP device (occa falls back to Serial otherwise)
+        cstamp = os.path.join(BUILD_DIR, 'cmake_args')
+        if not os.path.exists(os.path.join(b, 'build.ninja')) or not os.path.exists(cstamp) or open(cstamp).read() != ' '.join(cargs):
+            rc, o, e, s, _ = C.sh(['cmake', '-S', C.REPO, '-B', b, '-G', 'Ninja'] + cargs, timeout=600)
             if rc != 0:
                 raise C.Inconclusive('cmake configure of /repo failed: ' + (o + e)[-2000:])
             open(stamp, 'w').write(C.REPO)
+            open(cstamp, 'w').write(' '.join(cargs))
         rc, o, e, s, _ = C.sh(['cmake', '--build', b, '-j%d' % C.NCPU], timeout=3000)
         if rc != 0:
             raise C.Inconclusive('build of /repo failed (the tree does not compile?): ' + (o + e)[-3000:])
